@@ -314,6 +314,26 @@ def run(ctx):
         start = len(lines)
         lines.extend(f"y {a} {b}" for a, b in ys)
         spans.append((start, len(lines)))
+    # (d) manual reset() between updates (documented public API; `StreamingEnsemble.reset()` does it to every member): ADWIN keeps
+    # its window, statistics and check schedule (the schedule runs on total_samples, which a reset does not touch); only
+    # drift_state and retraining_recs are cleared -- Model/Adwin.lean `reset`.  Resets at positions not aligned with the period.
+    reset_cases = []
+    for k in range(80 if ctx.quick else 400):
+        r = np.random.default_rng([ctx.seed, 4, k])
+        cfg = gen_cfg(r)
+        if k % 2 == 0:
+            cfg["new_sample_thresh"] = int(r.choice([2, 3, 7, 32]))
+        n = int(r.integers(60, 260))
+        xs = gen_stream(r, n)
+        items = list(xs)
+        for _ in range(int(r.integers(1, 4))):
+            items.insert(int(r.integers(1, len(items))), "R")
+        tr = impl_trace(lambda: adwin_mod.ADWIN(**cfg), lambda d, it: d.reset() if isinstance(it, str) else d.update(it), items)
+        lines.append(new_line("adwin", cfg))
+        start = len(lines)
+        lines.extend("reset" if isinstance(it, str) else "u " + core.f2b(it) for it in items)
+        reset_cases.append((cfg, xs, items, tr, (start, len(lines))))
+        spans.append((start, len(lines)))
     out = core.run_driver(lines)
     for (s, e) in spans:
         if out[s - 1] != "ok":
@@ -355,6 +375,15 @@ def run(ctx):
         if nd >= 2 and len(xs) > 50:
             ctx.sample({"config": cfg, "stream_head": xs[:12], "length": len(xs), "drift_steps": [i for i, o in enumerate(tr) if o.get("drift") == "D"][:8],
                         "recs_at_first": next(o["recs"] for o in tr if o.get("drift") == "D")})
+
+    # ---- evaluate the manual-reset cases
+    for cfg, xs, items, tr, (s, e) in reset_cases:
+        mo = [parse_model(l) for l in out[s:e]]
+        ctx.traces += 1
+        nd, _ = compare(ctx, "adwin", cfg, items, tr, mo, tols(xs), {"items_with_manual_resets": items})
+        ctx.case(("reset", cfg_tuple(cfg), tuple(map(str, items))), nd > 0)
+        ctx.count("manual-reset-histories")
+        ctx.count("manual-reset-histories-with-drift", int(nd > 0))
 
     # ---- evaluate ADWINAccuracy cases
     acc_drifts = 0
